@@ -1454,6 +1454,10 @@ class MyPyAstVisitor:
                         for qualified_import in reexport_source.qualified_imports:
 
                             imported_qname = qualified_import.qualified_name
+                            if "." not in imported_qname:
+                                # "from . import name" imports a module or a declaration of the package itself, not the
+                                # declarations with that name of other modules
+                                imported_qname = f"{reexport_source.id.replace('/', '.')}.{imported_qname}"
                             if (qname == imported_qname or qname.endswith(f".{imported_qname}")) and (
                                 qualified_import.alias is not None
                                 and not is_internal(qualified_import.alias)
